@@ -6,3 +6,6 @@ impl Dependencies {
     pub(crate) fn verif_contains(&self, d: &Dependency) -> bool { self.0.contains(d) }
     pub(crate) fn verif_len(&self) -> usize { self.0.len() }
 }
+#[cfg(kani)]
+#[allow(dead_code)]
+pub(crate) fn verif_recording_is_none() -> bool { RECORDING.with(|r| r.get().is_none()) }
